@@ -99,6 +99,14 @@ CHECKS = {
         design_ref="DESIGN.md §4 C12",
         note="Faults are not injected inside the cleanup path itself (MetaDataSession.__exit__/deregister); line failpoints are sampled in quick, exhaustive per script in thorough.",
     ),
+    "C14": dict(
+        technique="differential monitor at AST level: unqualified rendering under default schema S vs S-qualified rendering without default, three configuration mechanisms (worker env before import, env after import, scoped override)",
+        category="exploration",
+        text="Generated 1-3 statement scripts are rendered twice (unqualified / every unqualified table written S.name) and analysed by the real package under each mechanism and both analyzers; "
+             "tables, column pairs and both exports must be equal; with no default every owner prints the placeholder.",
+        design_ref="DESIGN.md §4 C14",
+        note="Anonymous sub-query names are neutralised (their text differs by construction); column qualifiers are left as written in both renderings.",
+    ),
     "C15": dict(
         technique="controlled-scheduler history monitor: real threads gated per step (and at sys.monitoring LINE events), per-thread sequential model",
         category="exploration",
